@@ -25,6 +25,9 @@ pub fn only_thread(tid: i64) {
 pub type Hook = Box<dyn FnMut(libc::clockid_t) + Send>;
 static HOOK: Mutex<Option<Hook>> = Mutex::new(None);
 static LOG: Mutex<Vec<(libc::clockid_t, i64, i64)>> = Mutex::new(Vec::new());
+thread_local! {
+    static IN_HOOK: std::cell::Cell<bool> = std::cell::Cell::new(false);
+}
 
 pub fn enable(on: bool) {
     ON.store(on, SeqCst);
@@ -83,13 +86,22 @@ pub unsafe extern "C" fn clock_gettime(clk: libc::clockid_t, ts: *mut libc::time
         return libc::syscall(libc::SYS_clock_gettime, clk as libc::c_long, ts) as libc::c_int;
     }
     READS.fetch_add(1, SeqCst);
-    // Run the hook outside the lock-free fast path; tolerate re-entrancy by taking it out.
-    let h = HOOK.lock().unwrap_or_else(|e| e.into_inner()).take();
-    if let Some(mut h) = h {
-        h(clk);
+    // The hook runs under its lock: every read of every thread goes through it, one at a time (taking
+    // it out while it runs would let a read of another thread slip past it).  A read made by the hook
+    // itself, on the same thread, is not hooked.
+    let inside = IN_HOOK.try_with(|f| f.get()).unwrap_or(true);
+    if !inside {
         let mut slot = HOOK.lock().unwrap_or_else(|e| e.into_inner());
-        if slot.is_none() {
-            *slot = Some(h);
+        if let Some(h) = slot.as_mut() {
+            struct Reset;
+            impl Drop for Reset {
+                fn drop(&mut self) {
+                    let _ = IN_HOOK.try_with(|f| f.set(false));
+                }
+            }
+            let _ = IN_HOOK.try_with(|f| f.set(true));
+            let _reset = Reset;
+            h(clk);
         }
     }
     let (s, n) = if is_mono(clk) { get_mono() } else { get_real() };
